@@ -2,5 +2,5 @@ import Klong.Model.C18
 open Klong
 
 def main (_args : List String) : IO UInt32 := do
-  Wire.loop (← IO.getStdin) (← IO.getStdout) C18.handle C18.init
+  Wire.loop (← IO.getStdin) (← IO.getStdout) C18.handle (C18.init 0 [] [])
   return 0
